@@ -24,6 +24,10 @@ CLAIMED = {
          "For every function that starts a query the check shows that no return is reachable from the start's success edge without DeleteQuery for the same qid variable (direct, deferred or delegated to a goroutine that deletes on every loop exit); the query-table locks are released on all exits and acquired in an acyclic order; no blocking channel send happens while the global running-queries lock may be held; PromQL AST type assertions are checked; every query state that is sent has a handler in the coordinator loop. Parser termination, timing, admission arithmetic and other panic sources are not decided."),
  "C19": ("§3 C19", "static analysis: whole-program forward taint (interprocedural, field-based with deep marks for decode targets, per-result return taint, context-sensitive inlining of pure string helpers) from request accessors to file-system sinks and storage path builders, with dominance-checked sanitisers (filepath.Base, membership lookups, validators, validate-by-callee summaries)",
          "Every string/byte value obtainable from a request (fasthttp accessors, multipart file names, websocket reads and everything decoded from them) is followed through calls, fields, containers and closures of the whole repository; the check shows that none reaches the path operand of an os/ioutil file operation or the name parameter of a storage path builder without a sanitiser whose accepting edge dominates the use, and that percent-decoded router parameters are treated as arbitrary bytes. This covers every handler and every sink at once, including flows through shared helpers that no test exercises. Not decided: flows through map keys in long-lived state, the generated parsers' interface stacks, the Kibana-compat store, symlinks."),
+ "C08": ("§3 C08", "static analysis: sound interval analysis over SSA (constants, conversion type ranges, phi joins, refinement by dominating comparisons incl. short-circuit phis) for every narrow bit-field write (BOUND), writer/reader TABLE agreement of prefix codes and field widths, loop-path analysis of scratch-buffer Reset (LIVE)",
+         "Proves for all values that each narrow bit field written by the Gorilla compressor receives a value that fits (or lists the caller contract it relies on), that every signed payload lies in the asymmetric range the reader decodes, that prefix codes, payload widths and header widths agree between compressor and decompressor, and that the per-query scratch buffer is reset on every path to the next series. Bit-exact round trip as an outcome, TSID hashing and the series-file layout are not decided."),
+ "C15": ("§3 C15", "static analysis: loop-carried value analysis on the SSA phi web of HandleBulkBody (LIVE), loop-path analysis of item stores (PAIR), phi-edge analysis of the errors flag per failure branch (DEPENDS), error-flow of the store call, dominance of the size gate, release-site pairing",
+         "Shows for every path through the bulk action loop that no status-deciding value is left over from a previous action, that every action stores exactly one response item, that each failure branch turns the errors flag on, that document parsing is behind the record-size gate, that pooled events are released once, and reports that a failed store call only reaches the log. Searchability of acknowledged items is not decided."),
 }
 
 NOT_APPLICABLE = {
